@@ -152,12 +152,9 @@ pub fn test(t: &Test, r: &Record, now: u64) -> Result<bool, Undefined> {
             match k {
                 PermKind::Equal => m == *bits,
                 PermKind::AtLeast => m & bits == *bits,
-                PermKind::Any => {
-                    if *bits == 0 {
-                        return Err(Undefined("-perm /0 (GNU find special-cases it)"));
-                    }
-                    m & bits != 0
-                }
+                // "any given bit set": with no bit given no file qualifies (the property states the
+                // rule without GNU find's special case for an empty mask)
+                PermKind::Any => m & bits != 0,
             }
         }
         Test::Type(l) => l.iter().any(|t| r.mode & 0o170000 == t.ifmt()),
